@@ -54,6 +54,14 @@ CHECKS = {
             "expect_probes": ["preemptions", "yield_points", "preempt_in_html_export", "preempt_in_zip"],
             "state_measure": "distinct schedule hashes: FNV over the sequence (thread chosen, code site) at every hand-over",
             "sim_time": "not meaningful: the clock is constant during a run; schedules are counted in yield points"},
+    "C09": {"engine": "pkg", "variants": ["A", "B"], "quick": 5000, "thorough": 150000, "quick_s": 80, "thorough_s": 570,
+            "real": ["src/epub.c, opendocument.c, textbundle.c, itmz.c, zip.c, miniz.c, writer.c asset table", "the whole parser/writer", "glibc stdio over fopencookie"],
+            "stub": ["asset directory (in-memory FS with per-path faults)", "time()/localtime clock (simulated, [1980, 2107], jumps between calls)", "rand()/srand() (simulated libc PRNG; library-side srand honoured)",
+                     "DString starting capacity (H1)", "pool slab size (H2)", "stdio read chunk size"],
+            "expect_probes": ["asset_missing_or_unopenable", "asset_empty_or_unreadable", "directory_null_with_images", "srand_between_uuid_draws_possible", "clock_before_2000",
+                              "open_fail", "read_error", "file_changed_between_opens", "directory_in_place_of_file", "empty_file", "clock_jump_inside_op"],
+            "assumptions": ["Python zipfile/zlib and expat as the independent archive and XML readers (tools/pkgcheck.py)"],
+            "sim_time": "each package is built at its own simulated instant in [1980-01-01, 2107-12-31], optionally jumping by up to +-100000 s between two time() calls of one operation"},
 }
 
 DEFAULT_SEED = {"quick": 20261001, "thorough": 20261002}
@@ -205,7 +213,9 @@ def main():
         cmd = [builds[v]["exe"], "run", "--engine", cfg["engine"], "--seed", str(seed), "--runs", str(per_variant_runs),
                "--workers", str(a.workers), "--tier", tier, "--out", outdir, "--src-hash", builds[v]["src_hash"],
                "--max-seconds", str(per_variant_s)] + cfg.get("extra_args", [])
-        r = subprocess.run(cmd)
+        env = dict(os.environ)
+        env["MMDSIM_VERIF"] = VERIF
+        r = subprocess.run(cmd, env=env)
         if r.returncode != 0:
             rc_all = 2
     agg = merge(outdir, cfg["variants"])
